@@ -334,7 +334,12 @@ public:
 
     const_iterator begin() const
     {
-        return  const_cast<XalanMap*>(this)->begin();
+        // A map that has never held anything has no list head yet.  It
+        // must not be created here:  the map may be shared by several
+        // threads that only read it.
+        return m_entries.hasListHead() == false ?
+                    const_iterator(EntryListIterator()) :
+                    const_iterator(const_cast<XalanMap*>(this)->begin());
     }
 
     iterator end()
@@ -344,7 +349,9 @@ public:
 
     const_iterator end() const 
     {
-        return const_cast<XalanMap*>(this)->end();
+        return m_entries.hasListHead() == false ?
+                    const_iterator(EntryListIterator()) :
+                    const_iterator(const_cast<XalanMap*>(this)->end());
     }
 
     iterator find(const key_type& key)
@@ -374,7 +381,9 @@ public:
 
     const_iterator find(const key_type& key) const 
     {
-        return const_cast<XalanMap *>(this)->find(key);
+        return m_entries.hasListHead() == false ?
+                    end() :
+                    const_iterator(const_cast<XalanMap *>(this)->find(key));
     }
 
     data_type & operator[](const key_type& key)
